@@ -69,18 +69,21 @@ def affine(ctx, R):
 
 
 def closure_parts(ev, st, s, attr):
+    """(uninterpolator, interpolator) closures composed by the map stored in `attr`: found by their role in
+    the composition lambda x: I(U(x)), whatever the local names."""
     out = st.heap.get((s.text, attr))
-    if not isinstance(out, Closure):
+    if not isinstance(out, Closure) or out.env is None:
         return None, None
-    u = out.env.lookup("u") if out.env is not None else None
-    i = out.env.lookup("i") if out.env is not None else None
-    if not isinstance(u, Closure) or not isinstance(i, Closure):
-        # find closures in the env by role: the composition lambda x: i(u(x))
-        cl = [v for v in (out.env.vars.values() if out.env is not None else []) if isinstance(v, Closure)]
-        if len(cl) == 2:
-            return cl[0], cl[1]
-        return None, None
-    return u, i
+    body = out.func.node.body if out.func.is_lambda else None
+    if body is None:
+        rets = [n for n in out.func.node.body if isinstance(n, ast.Return)]
+        body = rets[0].value if len(rets) == 1 else None
+    if isinstance(body, ast.Call) and isinstance(body.func, ast.Name) and len(body.args) == 1 and isinstance(body.args[0], ast.Call) and isinstance(body.args[0].func, ast.Name):
+        i = out.env.lookup(body.func.id)
+        u = out.env.lookup(body.args[0].func.id)
+        if isinstance(u, Closure) and isinstance(i, Closure):
+            return u, i
+    return None, None
 
 
 @rule("C12.ENDPOINT-EXACT")
